@@ -28,15 +28,20 @@ the printable rendering is the text, for `escaped`/`glob` that unescaping invert
 escaper for display -- that the printable rendering is the text (and, `regex`, that making is
 idempotent). No guard on the shape of the text is left: `ends_like_modifier` over-approximates the
 grammar (`C08_ends_like_modifier_sound`).
-The contract is FALSE today in two known situations (open findings):
+`EscapedRule::make` is modelled in two steps (`makeRule`): the Cram-compatibility strip of a
+trailing ` (no-eol)` (`stripNoEol`, concrete) and the resolution of escape sequences
+(`P.make .escaped`, parameter). Every text written under the `escaped` kind goes through
+`guard_tailing_no_eol` (fix c1bf05c), so it never ends in ` (no-eol)` and the strip is the identity
+on it (`C08_guard_never_stripped`); for everything written as `escaped` the contract is therefore
+the pure escaper contract "resolving the escape sequences of the written text gives the bytes"
+(`C08_roundtrip_escaped_iff`; regression example `C08_roundtrip_no_eol_guarded`, the former
+witness `a<TAB> (no-eol) (equal)` of class `C08:escaped-no-eol-strip-roundtrip`).
+The contract is FALSE today in one known situation (open finding):
 * `C08:escaped-pattern-roundtrip`: a `regex` or `no-eol` expression with unprintable characters
   (under `--escaper ascii`: any non-ASCII character) is displayed with escape sequences and read
   back literally -- decidable guard `P.hasUnprintable e.expr = false`
   (`C08_roundtrip_noEol_guarded`), necessity `C08_roundtrip_noEol_iff`, witness `a<TAB> (no-eol)`
-  (`C08_roundtrip_fails_on_escaped_pattern_witness`);
-* `C08:escaped-no-eol-strip-roundtrip`: `EscapedRule::make` drops a trailing ` (no-eol)` (Cram
-  compatibility), so bytes ending in it do not survive being written as an `escaped` expectation
-  -- witness `a<TAB> (no-eol) (equal)` (`C08_roundtrip_fails_on_witness`).
+  (`C08_roundtrip_fails_on_escaped_pattern_witness`).
 -/
 namespace Scrut.Props.C08
 open Scrut.Grammar
@@ -44,13 +49,14 @@ open Scrut.Grammar
 /-- **C08 (total)**: parsing a line never crashes and never reports an unknown kind; it fails only
 with the error of a rule constructor, only when the line ends in a modifier naming the `escaped`,
 `glob` or `regex` kind, and only because that constructor rejects the expression in front of the
-modifier. (`glob` rejects only expressions carrying an inner ` (escaped)` marker with a malformed
-escape: a parameter here, sampled by the harness.) -/
+modifier (`makeRule`: for `escaped` after dropping a trailing ` (no-eol)`). (`glob` rejects only
+expressions carrying an inner ` (escaped)` marker with a malformed escape: a parameter here,
+sampled by the harness.) -/
 theorem C08_total (P : Params) (l : List Char) (hl : '\n' ∉ l) :
     (∃ e, parse P l = .ok e) ∨
     (parse P l = .error .makeError ∧ ∃ p K Q kind, Modifier P.isWhite l p K Q ∧
       lookupKind (orEqual K) = some kind ∧ (kind = .escaped ∨ kind = .glob ∨ kind = .regex) ∧
-      P.make kind p = none) :=
+      makeRule P kind p = none) :=
   parse_total hl
 
 /-- **C08 (grammar)**: the modifier recognised by the code is exactly the documented one: the
@@ -139,18 +145,38 @@ theorem C08_roundtrip_iff (P : Params) (hw : P.isWhite ' ' = true)
       makeRule P (sourceKind P e) (sourceText P e) = some e.expr :=
   roundtrip_iff hw hsub hnl
 
-/-- the open finding on its witness `a<TAB> (no-eol) (equal)`: the expression `a<TAB> (no-eol)` is
-rendered `a\\t (no-eol)`; an `escaped` constructor that makes other bytes `b'` of that text (the real
-one strips ` (no-eol)`) lets the canonical form read back as those -/
-theorem C08_roundtrip_fails_on_witness (P : Params) (hw : P.isWhite ' ' = true)
-    (hsub : ∀ c, P.isWhite c = true → P.isSpaceStd c = true) (b b' : List UInt8)
+/-- a text that went through `guard_tailing_no_eol` never ends in ` (no-eol)`: the strip of the
+`escaped` constructor is the identity on it and the constructor only resolves escape sequences -/
+theorem C08_guard_never_stripped (P : Params) (t : List Char) :
+    stripSuffix noEolSuffix (guardTailingNoEol t) = none ∧
+    stripNoEol (guardTailingNoEol t) = guardTailingNoEol t ∧
+    makeRule P .escaped (guardTailingNoEol t) = P.make .escaped (guardTailingNoEol t) :=
+  ⟨stripSuffix_guard t, stripNoEol_guard t, makeRule_escaped_guard P t⟩
+
+/-- everything written under the `escaped` kind (escaped expectations, `equal` ones with
+unprintable content) reads back exactly when resolving the escape sequences of the written text
+gives the bytes back -- the escaper's contract alone, the ` (no-eol)` strip plays no role -/
+theorem C08_roundtrip_escaped_iff (P : Params) (hw : P.isWhite ' ' = true)
+    (hsub : ∀ c, P.isWhite c = true → P.isSpaceStd c = true) (e : Expectation)
+    (hnl : '\n' ∉ sourceText P e) (hk : sourceKind P e = .escaped) :
+    parse P (toExpressionString P e) = .ok (reread P e) ↔
+      P.make .escaped (sourceText P e) = some e.expr :=
+  roundtrip_escaped_iff hw hsub hnl hk
+
+/-- regression example (the witness of the defect repaired by c1bf05c): the `equal` expectation
+`a<TAB> (no-eol)`, displayed `a\\t (no-eol)`, is written `a\\t\\x20(no-eol) (escaped)`; reading that
+strips nothing, so it comes back as the `escaped` expectation for the bytes the escape
+sequences resolve to -/
+theorem C08_roundtrip_no_eol_guarded (P : Params) (hw : P.isWhite ' ' = true)
+    (hsub : ∀ c, P.isWhite c = true → P.isSpaceStd c = true) (b : List UInt8)
     (hu : P.hasUnprintable b = true)
     (ht : P.escPrintable b = ['a', '\\', 't', ' ', '(', 'n', 'o', '-', 'e', 'o', 'l', ')'])
-    (hmk : P.make .escaped ['a', '\\', 't', ' ', '(', 'n', 'o', '-', 'e', 'o', 'l', ')'] = some b')
-    (hne : b' ≠ b) :
-    parse P (toExpressionString P ⟨.equal, b, false, false⟩) = .ok ⟨.escaped, b', false, false⟩ ∧
-    parse P (toExpressionString P ⟨.equal, b, false, false⟩) ≠ .ok (reread P ⟨.equal, b, false, false⟩) :=
-  roundtrip_fails_no_eol_strip hw hsub hu ht hmk hne
+    (hmk : P.make .escaped ['a', '\\', 't', '\\', 'x', '2', '0', '(', 'n', 'o', '-', 'e', 'o', 'l', ')'] = some b) :
+    toExpressionString P ⟨.equal, b, false, false⟩ =
+      ['a', '\\', 't', '\\', 'x', '2', '0', '(', 'n', 'o', '-', 'e', 'o', 'l', ')',
+       ' ', '(', 'e', 's', 'c', 'a', 'p', 'e', 'd', ')'] ∧
+    parse P (toExpressionString P ⟨.equal, b, false, false⟩) = .ok ⟨.escaped, b, false, false⟩ :=
+  roundtrip_no_eol_guarded hw hsub hu ht hmk
 
 /-- `no-eol` keeps its text, so its round trip holds exactly when the displayed text is the text -/
 theorem C08_roundtrip_noEol_iff (P : Params) (hw : P.isWhite ' ' = true)
@@ -230,8 +256,8 @@ example (k : Kind) (o m : Bool) :
     P0.isWhite ' ' = true ∧ (∀ c, P0.isWhite c = true → P0.isSpaceStd c = true) ∧
     '\n' ∉ sourceText P0 e ∧ makeRule P0 (sourceKind P0 e) (sourceText P0 e) = some e.expr := by
   refine ⟨rfl, fun _ h => h, ?_, ?_⟩
-  · cases k <;> simp [sourceText, P0, doubleBackslash]
-  · cases k <;> simp [sourceKind, sourceText, P0, doubleBackslash, makeRule]
+  · cases k <;> simp [sourceText, P0, doubleBackslash, guardTailingNoEol, stripSuffix, noEolSuffix, stripPrefix]
+  · cases k <;> simp [sourceKind, sourceText, P0, doubleBackslash, makeRule, guardTailingNoEol, stripNoEol, stripSuffix, noEolSuffix, stripPrefix]
 
 /-- and of the regression example (`ends_like_modifier` is true of `foo (glob)` but the grammar
     over-approximation is proper: it is also true of `foo (bar)`, which is no modifier) -/
